@@ -124,6 +124,33 @@ def main(argv=None):
             if rc != 0 or js.get('n_bad', 1) != 0:
                 checker_errors.append('%s: %s %s' % (what, json.dumps(js)[:400], err[-300:]))
 
+    # ---- algebraic glue lemmas (Lean 4 + Mathlib): composition steps between the per-function contracts and the statement
+    lemmas = plan.get('lean_lemmas')
+    if lemmas:
+        lf = os.path.join(ROOT, 'lean', 'Glue.lean')
+        rec = {'what': 'lean: algebraic glue lemmas %s' % lemmas, 'script': 'lean/Glue.lean', 'sha1': hashlib.sha1(open(lf, 'rb').read()).hexdigest(),
+               'lemmas': lemmas}
+        if tier != 'quick' or os.environ.get('VERIF_LEAN') == '1':
+            try:
+                t_l = time.time()
+                pl = subprocess.run(['lean', lf], capture_output=True, text=True, timeout=3000, cwd=os.path.join(ROOT, 'lean'))
+                out_l = pl.stdout + pl.stderr
+                ax = {m.group(1): m.group(2) for m in re.finditer(r"'(\w+)' (depends on axioms: \[[^\]]*\]|does not depend on any axioms)", out_l)}
+                bad_ax = []
+                for k, v in ax.items():
+                    mm = re.findall(r'\[([^\]]*)\]', v)
+                    if mm and any(a.strip() and a.strip() not in ('propext', 'Classical.choice', 'Quot.sound') for a in mm[0].split(',')):
+                        bad_ax.append(k)
+                rec.update({'rc': pl.returncode, 'seconds': round(time.time() - t_l, 1), 'axioms': ax, 'checked': [l for l in lemmas if l in ax]})
+                if pl.returncode != 0 or 'error' in out_l or 'sorry' in out_l or bad_ax or any(l not in ax for l in lemmas):
+                    checker_errors.append('lean glue lemmas: rc=%d %s' % (pl.returncode, out_l[-400:]))
+            except Exception as e:
+                rec.update({'rc': 3, 'error': str(e)})
+                checker_errors.append('lean glue lemmas could not be checked: %s' % e)
+        else:
+            rec.update({'rc': None, 'note': 'checked by the thorough tier (lean + Mathlib import takes 10 s idle, minutes under load); quick records the file hash'})
+        native_res.append(rec)
+
     # ---- interpret ------------------------------------------------------------------
     all_obs = []
     violations = []
@@ -305,7 +332,8 @@ def main(argv=None):
         'coverage': {
             'obligations': n_obl, 'discharged': n_dis,
             'checker_cmd': 'python3-vt -m cbv.check %s --tier %s' % (prop, tier),
-            'trusted_base': plan.get('trusted_base', []),
+            'trusted_base': plan.get('trusted_base', []) + (['Lean 4 kernel + Mathlib (algebraic glue lemmas lean/Glue.lean, checked by the thorough tier)']
+                                                            if plan.get('lean_lemmas') else []),
             'explanation': plan.get('explanation', ''),
             'functions_under_contract': funcs,
             'backends': backends, 'solver_seconds': round(solver_s, 2),
